@@ -149,7 +149,8 @@ func checkC10(c *Ctx, r *Report) {
 					f = p
 				}
 				for _, a := range allAnon(p) {
-					if len(callsInOnly(a, gaterIface+s.gate)) > 0 {
+					// (a local predicate that is only ever called on the spot belongs to the closure calling it)
+					if len(callsIn(a, gaterIface+s.gate)) > 0 && !plainCalledOnly(a) {
 						f = a
 					}
 				}
@@ -215,7 +216,7 @@ func checkC10(c *Ctx, r *Report) {
 				}
 			}
 		}
-		for _, b := range f.Blocks {
+		for _, b := range blocksDeep(f) {
 			for i := range b.Succs {
 				if allowEdge(b, i) {
 					nAllow++
@@ -328,7 +329,7 @@ func checkC10(c *Ctx, r *Report) {
 	if da := r3.need(daK); da != nil {
 		n := 0
 		for _, f := range c.Fns {
-			allInstrs(f, func(in ssa.Instruction) {
+			allInstrsIn(f, func(in ssa.Instruction) {
 				if mc, ok := in.(*ssa.MakeClosure); ok {
 					if fn, ok := mc.Fn.(*ssa.Function); ok && fn.Synthetic != "" && fn.Object() == da.Object() {
 						// bound method value s.dialAddr: every (transitive, through conversions) use
@@ -583,7 +584,9 @@ func checkC10(c *Ctx, r *Report) {
 						w, n := (&Cut{Fn: g, Target: isInstr(ret), EdgeCut: nil}).Run(c)
 						_ = w
 						r7.OK(name+": answer delegated to "+fnKey(h)+" with the address's IP", instrPos(ret), n+1, "")
-						decideByIP(h, name+" → "+fnKey(h), func(v ssa.Value) bool { return v == ssa.Value(p) || isParamCellLoad(c, v, p) }, nil, depth-1)
+						asRoot(h, func() {
+							decideByIP(h, name+" → "+fnKey(h), func(v ssa.Value) bool { return v == ssa.Value(p) || isParamCellLoad(c, v, p) }, nil, depth-1)
+						})
 						continue
 					}
 				}
@@ -595,7 +598,7 @@ func checkC10(c *Ctx, r *Report) {
 		}
 		r7.guard(g, "return allow", allowRets, "no IP || !blockedAddrs[ip]", anyEdge(noIP, edgeBool(lookupOK("blockedAddrs"), false)), nil)
 		var hit []CFGEdge
-		for _, b := range g.Blocks {
+		for _, b := range blocksDeep(g) {
 			for i := range b.Succs {
 				if edgeBool(isCallResult(0, "(*net.IPNet).Contains"), true)(b, i) {
 					hit = append(hit, CFGEdge{b, i})
